@@ -20,6 +20,7 @@ def srcJ : Src → Json
 partial def otreeJ : OTree → Json
   | .missing n => Json.mkObj [("missing", Json.str n)]
   | .notCallable => Json.str "notcallable"
+  | .diverges => Json.str "diverges"
   | .node s kids => Json.mkObj [("src", srcJ s), ("kids", Json.arr (kids.map otreeJ).toArray)]
 
 def optListJ : Option (List Nat) → Json
